@@ -1,5 +1,5 @@
 (* E8 Hydro engine -- C29, repaired typing: with the ordering of join / cross_product bounded by
-   BOTH sides ([bord_fix]), every tick program is deterministic up to its type: whatever order the
+   BOTH sides ([bord]), every tick program is deterministic up to its type: whatever order the
    NoOrder-cast streams arrive in (any two arrival oracles), outputs typed TotalOrder are equal
    sequences and the others equal multisets, tick by tick. *)
 From Coq Require Import Arith PeanoNat.
@@ -52,7 +52,7 @@ Proof. intros o1 o2 a b H -> ->. exact H. Qed.
 
 Theorem bspec_oracle_independent : forall n, bwf n ->
   forall sigma sigma', perm_oracle sigma -> perm_oracle sigma' ->
-  forall bs, Forall2 (equiv (bord_fix n)) (bspec_o sigma n bs) (bspec_o sigma' n bs).
+  forall bs, Forall2 (equiv (bord n)) (bspec_o sigma n bs) (bspec_o sigma' n bs).
 Proof.
   induction n; intros W sigma sigma' S S' bs; simpl in W |- *.
   - (* BBatch *) induction bs; simpl; constructor; auto. reflexivity.
@@ -67,7 +67,7 @@ Proof.
   - (* BChain *) destruct W as [W1 W2].
     eapply Forall2_map2; [apply Forall2_combine; [apply IHn1 | apply IHn2]; eauto|].
     intros [a1 a2] [b1 b2] [H1 H2]. simpl in *.
-    destruct (bord_fix n1) eqn:O1; destruct (bord_fix n2) eqn:O2; simpl in *; subst;
+    destruct (bord n1) eqn:O1; destruct (bord n2) eqn:O2; simpl in *; subst;
       try reflexivity; apply Permutation_app; auto; try reflexivity.
   - (* BSort *) destruct W as [O W]. eapply Forall2_map2; [apply IHn; eauto|]. intros a b H.
     rewrite O in H. simpl in H. subst. reflexivity.
@@ -78,12 +78,12 @@ Proof.
   - (* BJoin *) destruct W as [W1 W2].
     eapply Forall2_map2; [apply Forall2_combine; [apply IHn1 | apply IHn2]; eauto|].
     intros [a1 a2] [b1 b2] [H1 H2]. simpl in *.
-    destruct (bord_fix n1) eqn:O1; destruct (bord_fix n2) eqn:O2; simpl in *; subst;
+    destruct (bord n1) eqn:O1; destruct (bord n2) eqn:O2; simpl in *; subst;
       try reflexivity; apply pairs_perm; auto; try reflexivity.
   - (* BCross *) destruct W as [W1 W2].
     eapply Forall2_map2; [apply Forall2_combine; [apply IHn1 | apply IHn2]; eauto|].
     intros [a1 a2] [b1 b2] [H1 H2]. simpl in *.
-    destruct (bord_fix n1) eqn:O1; destruct (bord_fix n2) eqn:O2; simpl in *; subst;
+    destruct (bord n1) eqn:O1; destruct (bord n2) eqn:O2; simpl in *; subst;
       try reflexivity; apply pairs_perm; auto; try reflexivity.
   - (* BAntiJoin *) destruct W as [W1 W2].
     eapply Forall2_map2; [apply Forall2_combine; [apply IHn1 | apply IHn2]; eauto|].
@@ -96,10 +96,10 @@ Proof.
     destruct b2 as [|v r]; [apply equiv_refl|].
     apply equiv_congr; [apply Permutation_map | exact H1].
   - (* BFold *) destruct W as [W C]. eapply Forall2_map2; [apply IHn; eauto|]. intros a b H. simpl.
-    destruct (bord_fix n) eqn:O; simpl in H; [subst; reflexivity|].
+    destruct (bord n) eqn:O; simpl in H; [subst; reflexivity|].
     rewrite (fold_left_perm acc (C eq_refl) _ _ H). reflexivity.
   - (* BReduce *) destruct W as [W C]. eapply Forall2_map2; [apply IHn; eauto|]. intros a b H. simpl.
-    destruct (bord_fix n) eqn:O; simpl in H; [subst; reflexivity|].
+    destruct (bord n) eqn:O; simpl in H; [subst; reflexivity|].
     rewrite (reduce_perm f (C eq_refl) _ _ H). reflexivity.
   - (* BFoldKeyed *) destruct W as [O W]. eapply Forall2_map2; [apply IHn; eauto|]. intros a b H.
     rewrite O in H. simpl in H |- *. subst. reflexivity.
